@@ -1647,6 +1647,11 @@ impl VirtualFileSystem for Memfs {
             let src_entry = if let Some(mut dst_entry) = guard.remove_entry(&src_path) {
                 let src_entry = dst_entry.clone();
                 dst_entry.path.clone_from(&dst_path);
+
+                // A link stores its target relative to itself so it is resolved again from its new location
+                if dst_entry.is_symlink() && !dst_entry.rel.is_absolute() {
+                    dst_entry.alt = dst_path.dir()?.mash(&dst_entry.rel).clean();
+                }
                 guard.insert_entry(dst_path.clone(), dst_entry);
                 src_entry
             } else {
